@@ -187,7 +187,9 @@ def h_arith(E, expr):
 ANTICIPATED = ['A^i', 'A^(2*i)', 'A^0.5', 'A^-1', 'A^[1,2]', 'A^A', '2^A', 'v^2', 'A+v', 'A+1', 'v/A', 'A/v', 'v*v*v', 'A*v*v*v', 'sin(A)', 'abs(A)', 'trace(v)', 'cross(v,v)', 'A^1.5',
                'det(v)', 'norm(A,v)', 'min(A,1)', 'arctan2(0,0)', '1/0', 'ln(0)', 'fact(-1)' if False else 'A*[1,2,3]', '[1,2]+[1,2,3]', 'A^(1/0)', 'tan(pi/2)^-1*0+1/0', '[[1,2],[3]]', '[1,2',
                # anticipated problems in submissions that contain braces (tensor-index names) - nothing may treat the submission as a format template
-               '(x_{1}+2]', '[1,2)+x_{1}', 'x_{1}+2)', '(x_{1}', 'x_{1}+zz_{0}', 'gg_{1}(x_{1})', 'x_{1}/0', 'x_{1}^[1,2]', 'A+x_{1}', '{x_{1}}', 'x_{1}_{2}', 'x_{1}+%s', 'sin(x_{1},2)']
+               '(x_{1}+2]', '[1,2)+x_{1}', 'x_{1}+2)', '(x_{1}', 'x_{1}+zz_{0}', 'gg_{1}(x_{1})', 'x_{1}/0', 'x_{1}^[1,2]', 'A+x_{1}', '{x_{1}}', 'x_{1}_{2}', 'x_{1}+%s', 'sin(x_{1},2)',
+               # submissions whose VALUE is a scalar of every carrier type where a matrix is expected (shape mismatch is an anticipated problem)
+               'kronecker(1,1)', '0||3', '-(1||0)', '2', 'c', 'c+i', 'kronecker(1,2)+c']
 
 
 def h_anticipated(E, idx, negative_powers):
